@@ -55,6 +55,28 @@ type Conn struct {
 	// Connect (with Fail, point reqmod, no MITM): the exchange in flight is a
 	// CONNECT to a target that cannot be dialled.
 	Connect bool `json:"connect,omitempty"`
+	// Skip (points reqmod, resmod): the request modifier asks for the round trip
+	// to be skipped (ctx.SkipRoundTrip(), as proxyauth's 407 or an API forwarder
+	// does); the response modifier supplies the body. With Connect and no MITM:
+	// a CONNECT answered without a tunnel.
+	Skip bool `json:"skip,omitempty"`
+	// ReqBody > 0 (with Skip): the request in flight is a POST announcing a body of
+	// this many bytes that nobody consumes. Withheld: the client has sent only the
+	// first few bytes of it and, once it holds the final response (marked close),
+	// sends no more and waits for the close it was told about. Otherwise the whole
+	// body is on its way before shutdown is requested.
+	ReqBody  int  `json:"req_body,omitempty"`
+	Withheld bool `json:"withheld,omitempty"`
+	// Huge: the response to the exchange in flight has 16 MiB and the client
+	// takes it in slowly (64 KiB per millisecond): its tail is still in the
+	// proxy's socket when the proxy closes the connection.
+	Huge bool `json:"huge,omitempty"`
+	// Pipelined: while the exchange is parked the client sends its next request
+	// behind it (HTTP/1.1 pipelining); it is unread when the connection is closed.
+	Pipelined bool `json:"pipelined,omitempty"`
+	// Carry (point mitm-connect-reqmod): after the answer to its CONNECT the client
+	// goes on with the TLS handshake anyway instead of waiting for the close.
+	Carry bool `json:"carry,omitempty"`
 }
 
 // Case is 1..3 connections, the order in which parked exchanges are released
@@ -82,6 +104,10 @@ type Case struct {
 	// timeout is not owed its response any more (its connection's deadline has
 	// passed); Close() must still wait for its handler.
 	ShortTimeout bool `json:"short_timeout,omitempty"`
+	// SlowAddr: RemoteAddr() of an accepted connection takes 30 ms the first time
+	// it is asked (legal for a net.Conn): Serve asks between Accept and the start
+	// of the handler, so "accepted" and "handler running" are distinguishable.
+	SlowAddr bool `json:"slow_addr,omitempty"`
 }
 
 // trackListener records when each accepted connection's Close has completed.
@@ -90,6 +116,9 @@ type trackListener struct {
 	delay  time.Duration
 	mu     sync.Mutex
 	closed map[string]bool // by remote address
+	// accepted: handed out by Accept (recorded before Accept returns)
+	accepted map[string]bool
+	slowAddr time.Duration
 }
 
 func (l *trackListener) Accept() (net.Conn, error) {
@@ -97,17 +126,26 @@ func (l *trackListener) Accept() (net.Conn, error) {
 	if err != nil {
 		return nil, err
 	}
-	return &trackConn{Conn: c, l: l, key: c.RemoteAddr().String()}, nil
+	key := c.RemoteAddr().String()
+	l.mu.Lock()
+	l.accepted[key] = true
+	l.mu.Unlock()
+	return &trackConn{Conn: c, l: l, key: key}, nil
 }
 
-func (l *trackListener) snapshot() map[string]bool {
+// snapshot returns, as of one moment, which connections had been closed and
+// which had been handed out by Accept.
+func (l *trackListener) snapshot() (closed, accepted map[string]bool) {
 	l.mu.Lock()
 	defer l.mu.Unlock()
-	out := map[string]bool{}
+	closed, accepted = map[string]bool{}, map[string]bool{}
 	for k, v := range l.closed {
-		out[k] = v
+		closed[k] = v
 	}
-	return out
+	for k, v := range l.accepted {
+		accepted[k] = v
+	}
+	return closed, accepted
 }
 
 type trackConn struct {
@@ -115,6 +153,23 @@ type trackConn struct {
 	l    *trackListener
 	key  string
 	once sync.Once
+	addr sync.Once
+}
+
+func (c *trackConn) RemoteAddr() net.Addr {
+	c.addr.Do(func() { time.Sleep(c.l.slowAddr) })
+	return c.Conn.RemoteAddr()
+}
+
+// slowConn is a client connection that takes in at most 64 KiB per millisecond.
+type slowConn struct{ net.Conn }
+
+func (c slowConn) Read(b []byte) (int, error) {
+	time.Sleep(time.Millisecond)
+	if len(b) > 64<<10 {
+		b = b[:64<<10]
+	}
+	return c.Conn.Read(b)
 }
 
 func (c *trackConn) Close() (err error) {
@@ -136,6 +191,9 @@ func (c *trackConn) Close() (err error) {
 // For these the client carries on with the handshake when it is "released";
 // nothing is demanded of the CONNECT's own answer, only that nothing hangs and
 // the connection is closed.
+//
+//	mitm-idle-tunnel      as mitm-awaiting-hello, but the client stays silent: an idle connection
+//	mitm-half-hello       the client has sent the first bytes of its ClientHello and stays silent
 var inflight = map[string]bool{"reqmod": true, "roundtrip": true, "resmod": true, "writing": true, "uploading": true, "mitm-connect-reqmod": true, "mitm-awaiting-hello": true}
 
 const bigBody = 32 << 20
@@ -180,6 +238,11 @@ func (g *gates) ModifyRequest(req *http.Request) error {
 	g.mu.Lock()
 	g.reqSeq[id] = g.tick()
 	g.mu.Unlock()
+	if req.Header.Get("X-Verif-Skip") == "1" {
+		if ctx := martian.NewContext(req); ctx != nil {
+			ctx.SkipRoundTrip()
+		}
+	}
 	g.park(id, "reqmod")
 	return nil
 }
@@ -189,6 +252,11 @@ func (g *gates) ModifyResponse(res *http.Response) error {
 	g.mu.Lock()
 	g.resSeen[id] = true
 	g.mu.Unlock()
+	if res.Request.Header.Get("X-Verif-Skip") == "1" && res.Request.Method != "CONNECT" {
+		b := bodyFor(id)
+		res.Body = io.NopCloser(bytes.NewReader(b))
+		res.ContentLength = int64(len(b))
+	}
 	g.park(id, "resmod")
 	return nil
 }
@@ -208,6 +276,15 @@ func request(id string) string {
 	if strings.Contains(id, "-fail") {
 		host = "down.test"
 	}
+	if strings.HasSuffix(id, "-cskip") {
+		return fmt.Sprintf("CONNECT origin.test:443 HTTP/1.1\r\nHost: origin.test:443\r\nX-Verif-Id: %s\r\nX-Verif-Skip: 1\r\n\r\n", id)
+	}
+	if strings.HasSuffix(id, "-conn") {
+		return fmt.Sprintf("CONNECT origin.test:443 HTTP/1.1\r\nHost: origin.test:443\r\nX-Verif-Id: %s\r\n\r\n", id)
+	}
+	if strings.Contains(id, "-skip") {
+		return fmt.Sprintf("GET http://%s/%s HTTP/1.1\r\nHost: %s\r\nX-Verif-Id: %s\r\nX-Verif-Skip: 1\r\n\r\n", host, id, host, id)
+	}
 	if strings.HasSuffix(id, "-cfail") {
 		return fmt.Sprintf("CONNECT down.test:443 HTTP/1.1\r\nHost: down.test:443\r\nX-Verif-Id: %s\r\n\r\n", id)
 	}
@@ -226,6 +303,10 @@ func bodyFor(id string) []byte {
 		bigOnce.Do(func() { bigData = kit.Bytes(77, bigBody) })
 		return bigData
 	}
+	if strings.Contains(id, "-huge") {
+		bigOnce.Do(func() { bigData = kit.Bytes(77, bigBody) })
+		return bigData[:16<<20]
+	}
 	if i := strings.LastIndex(id, "-s"); i > 0 {
 		if n, err := strconv.Atoi(id[i+2:]); err == nil && n > 0 {
 			return kit.Bytes(78, n)
@@ -234,22 +315,53 @@ func bodyFor(id string) []byte {
 	return []byte("BODY-" + id)
 }
 
+// A wait that expired is re-validated once with three times the bound before
+// it counts. A signature confirmed that way (a hang that is there on this tree)
+// is not waited for at full length again in this process: cost only, the
+// verdict for such a case is the signature that was already confirmed.
+var (
+	confMu    sync.Mutex
+	confirmed = map[string]bool{}
+)
+
+func patience(sig string, T time.Duration) time.Duration {
+	confMu.Lock()
+	defer confMu.Unlock()
+	if confirmed[sig] {
+		return T / 6
+	}
+	return T
+}
+
 func run(c Case) kit.Verdict {
 	v := runOnce(c, kit.T())
+	if kit.Shrinking() {
+		return v
+	}
+	fresh := false
+	confMu.Lock()
 	for _, f := range v {
-		if kit.Shrinking() {
-			break
-		}
-		if strings.Contains(f.Sig, "timeout") {
-			v2 := runOnce(c, 3*kit.T())
-			if len(v2) == 0 {
-				kit.Inconclusive("shutdown")
-				return nil
-			}
-			return v2
+		if strings.Contains(f.Sig, "timeout") && !confirmed[f.Sig] {
+			fresh = true
 		}
 	}
-	return v
+	confMu.Unlock()
+	if !fresh {
+		return v
+	}
+	v2 := runOnce(c, 3*kit.T())
+	if len(v2) == 0 {
+		kit.Inconclusive("shutdown")
+		return nil
+	}
+	confMu.Lock()
+	for _, f := range v2 {
+		if strings.Contains(f.Sig, "timeout") {
+			confirmed[f.Sig] = true
+		}
+	}
+	confMu.Unlock()
+	return v2
 }
 
 type client struct {
@@ -259,6 +371,8 @@ type client struct {
 	res     *netkit.Resp
 	resErr  error
 	resDone chan struct{}
+	cn      Conn
+	method  string
 }
 
 func runOnce(c Case, T time.Duration) (v kit.Verdict) {
@@ -328,7 +442,10 @@ func runOnce(c Case, T time.Duration) (v kit.Verdict) {
 	p.SetRoundTripper(gatedRT{g, p.GetRoundTripper()})
 	p.SetRequestModifier(g)
 	p.SetResponseModifier(g)
-	tl := &trackListener{closed: map[string]bool{}}
+	tl := &trackListener{closed: map[string]bool{}, accepted: map[string]bool{}}
+	if c.SlowAddr {
+		tl.slowAddr = 30 * time.Millisecond
+	}
 	if c.SlowClose {
 		tl.delay = 30 * time.Millisecond
 	}
@@ -349,7 +466,7 @@ func runOnce(c Case, T time.Duration) (v kit.Verdict) {
 		return tl
 	})
 	closed := make(chan struct{})
-	var closedAtReturn map[string]bool
+	var closedAtReturn, acceptedAtReturn map[string]bool
 	closeStarted := false
 	defer func() {
 		// never leave parked goroutines behind
@@ -380,6 +497,10 @@ func runOnce(c Case, T time.Duration) (v kit.Verdict) {
 		if err != nil {
 			return kit.Failf("C07/harness/dial", "%v", err)
 		}
+		if cn.Huge {
+			sc := slowConn{cl.Conn}
+			cl = &netkit.Client{Conn: sc, BR: bufio.NewReaderSize(sc, 64<<10)}
+		}
 		if c.TLSListener && !strings.HasPrefix(cn.Point, "tls-") {
 			tc := tls.Client(cl.Conn, &tls.Config{RootCAs: pool, ServerName: "origin.test"})
 			tc.SetDeadline(time.Now().Add(T))
@@ -390,7 +511,7 @@ func runOnce(c Case, T time.Duration) (v kit.Verdict) {
 			tc.SetDeadline(time.Time{})
 			cl = &netkit.Client{Conn: tc, BR: bufio.NewReaderSize(tc, 64<<10)}
 		}
-		k := &client{cl: cl, point: cn.Point, resDone: make(chan struct{})}
+		k := &client{cl: cl, point: cn.Point, resDone: make(chan struct{}), cn: cn, method: "GET"}
 		clients = append(clients, k)
 		if strings.HasSuffix(cn.Point, "-after") {
 			id := fmt.Sprintf("warm-%d", i)
@@ -431,23 +552,40 @@ func runOnce(c Case, T time.Duration) (v kit.Verdict) {
 			case <-time.After(T):
 				return kit.Failf("C07/harness/exchange-not-parked-timeout", "connection %d: the CONNECT never reached the request modifier", i)
 			}
-		case cn.Point == "mitm-awaiting-hello":
+		case cn.Point == "mitm-awaiting-hello" || cn.Point == "mitm-idle-tunnel" || cn.Point == "mitm-half-hello":
 			k.id = fmt.Sprintf("cy%d", i)
 			cl.Write([]byte("CONNECT secure.test:443 HTTP/1.1\r\nHost: secure.test:443\r\nX-Verif-Id: " + k.id + "\r\n\r\n"))
 			if res, _, err := cl.ReadResponse("CONNECT", T); err != nil || res.Status != 200 {
 				return kit.Failf("C07/harness/connect-not-answered-timeout", "connection %d: %v %+v", i, err, res)
 			}
+			if cn.Point == "mitm-half-hello" {
+				cl.Write([]byte{0x16, 0x03, 0x01})
+			}
 		case strings.HasPrefix(cn.Point, "head-"):
 			cl.Write([]byte("GET http://origin.test/partial HTTP/1.1\r\nHost: origin.te"))
 		case inflight[cn.Point]:
 			k.id = fmt.Sprintf("x%d", i)
-			if cn.Size > 0 {
-				k.id = fmt.Sprintf("x%d-s%d", i, cn.Size)
+			skip := cn.Skip && (cn.Point == "reqmod" || cn.Point == "resmod")
+			if skip {
+				k.id += "-skip"
 			}
-			if cn.Fail && (cn.Point == "reqmod" || cn.Point == "roundtrip") {
+			if cn.Huge {
+				k.id += "-huge"
+			} else if cn.Size > 0 {
+				k.id += fmt.Sprintf("-s%d", cn.Size)
+			}
+			if cn.Fail && (cn.Point == "reqmod" || cn.Point == "roundtrip" || cn.Point == "resmod") {
 				k.id = fmt.Sprintf("x%d-fail", i)
-				if cn.Connect && cn.Point == "reqmod" && !needMITM {
+				if cn.Connect && cn.Point != "roundtrip" && !needMITM {
 					k.id = fmt.Sprintf("x%d-cfail", i)
+					k.method = "CONNECT"
+				}
+			} else if cn.Connect && !needMITM {
+				switch {
+				case skip:
+					k.id, k.method = fmt.Sprintf("x%d-cskip", i), "CONNECT"
+				case cn.Point == "reqmod":
+					k.id, k.method = fmt.Sprintf("x%d-conn", i), "CONNECT"
 				}
 			}
 			if cn.Point == "writing" {
@@ -456,7 +594,16 @@ func runOnce(c Case, T time.Duration) (v kit.Verdict) {
 			} else {
 				g.add(k.id, cn.Point)
 			}
-			cl.Write([]byte(request(k.id)))
+			if skip && cn.ReqBody > 0 && k.method == "GET" {
+				k.method = "POST"
+				body := kit.Bytes(80, cn.ReqBody)
+				if cn.Withheld {
+					body = body[:min(26, len(body))]
+				}
+				cl.Write(append([]byte(fmt.Sprintf("POST http://origin.test/%s HTTP/1.1\r\nHost: origin.test\r\nX-Verif-Id: %s\r\nX-Verif-Skip: 1\r\nContent-Length: %d\r\n\r\n", k.id, k.id, cn.ReqBody)), body...))
+			} else {
+				cl.Write([]byte(request(k.id)))
+			}
 			if cn.Point == "writing" {
 				// parked = the head is on the wire and the client is not reading the body
 				cl.Conn.SetReadDeadline(time.Now().Add(T))
@@ -469,6 +616,9 @@ func runOnce(c Case, T time.Duration) (v kit.Verdict) {
 				case <-time.After(T):
 					return kit.Failf("C07/harness/exchange-not-parked-timeout", "connection %d never reached %s", i, cn.Point)
 				}
+				if cn.Pipelined && k.method != "CONNECT" {
+					cl.Write([]byte(request(fmt.Sprintf("pipe-%d", i))))
+				}
 			}
 		}
 	}
@@ -479,7 +629,7 @@ func runOnce(c Case, T time.Duration) (v kit.Verdict) {
 	closeStarted = true
 	go func() {
 		p.Close()
-		closedAtReturn = tl.snapshot()
+		closedAtReturn, acceptedAtReturn = tl.snapshot()
 		close(closed)
 	}()
 	if !kit.Eventually(T, p.Closing) {
@@ -521,6 +671,11 @@ func runOnce(c Case, T time.Duration) (v kit.Verdict) {
 		k := clients[idx]
 		select {
 		case <-closed:
+			if k.point == "mitm-awaiting-hello" {
+				// (its CONNECT has been answered: an idle connection, which shutdown
+				// closes; the client finds that out when it goes on)
+				break
+			}
 			v.Addf("C07/shutdown/"+k.point+"/close-returned-with-exchange-in-flight", "Close() returned while the exchange on connection %d was still parked at %s", idx, k.point)
 		default:
 		}
@@ -531,8 +686,23 @@ func runOnce(c Case, T time.Duration) (v kit.Verdict) {
 				g.mu.Lock()
 				close(g.release[k.id])
 				g.mu.Unlock()
-				if _, _, err := k.cl.ReadResponse("CONNECT", T); err != nil && netkit.IsTimeout(err) {
+				res, _, err := k.cl.ReadResponse("CONNECT", T)
+				if err != nil && netkit.IsTimeout(err) {
 					v.Addf(pre+"timeout-connect-neither-answered-nor-closed", "connection %d: the CONNECT parked in the request modifier at shutdown was neither answered nor closed within %v of its release: %v", idx, T, err)
+					parkedLeft--
+					continue
+				}
+				// the CONNECT is an exchange whose request modifier had started: its
+				// answer is the last response on this connection
+				if err == nil && !res.Close {
+					v.Addf(pre+"response-not-marked-close", "connection %d: the CONNECT was inside the request modifier when shutdown was requested; its answer (%d) carries no Connection: close", idx, res.Status)
+				}
+				if !k.cn.Carry {
+					sig := pre + "timeout-connection-not-closed-after-response"
+					if _, eof, eerr := k.cl.ExpectEOF(patience(sig, T)); !eof {
+						v.Addf(sig, "connection %d: the CONNECT in flight at shutdown was answered, the client waits for the close: connection still open (%v)", idx, eerr)
+						k.cl.Close()
+					}
 					parkedLeft--
 					continue
 				}
@@ -560,14 +730,15 @@ func runOnce(c Case, T time.Duration) (v kit.Verdict) {
 			close(g.release[k.id])
 			g.mu.Unlock()
 		}
-		method := "GET"
+		method := k.method
 		if k.point == "uploading" {
 			method = "POST"
 		}
-		if strings.HasSuffix(k.id, "-cfail") {
-			method = "CONNECT"
+		rb := T
+		if strings.HasSuffix(k.id, "-conn") {
+			rb = patience("C07/connect-to-reachable-target/"+k.point+"/timeout-connection-not-closed-after-response", T)
 		}
-		res, _, err := k.cl.ReadResponse(method, T)
+		res, _, err := k.cl.ReadResponse(method, rb)
 		k.res, k.resErr = res, err
 		if c.ShortTimeout {
 			parkedLeft--
@@ -584,12 +755,30 @@ func runOnce(c Case, T time.Duration) (v kit.Verdict) {
 			pre = "C07/exchange-on-shaped-listener/" + k.point + "/"
 		}
 		switch {
+		case strings.HasSuffix(k.id, "-cskip"):
+			pre = "C07/connect-with-skipped-round-trip/" + k.point + "/"
+		case strings.HasSuffix(k.id, "-conn"):
+			pre = "C07/connect-to-reachable-target/" + k.point + "/"
+		case method == "POST" && k.cn.Withheld:
+			pre = "C07/exchange-with-rest-of-request-body-never-sent/" + k.point + "/"
+		case method == "POST" && k.point != "uploading":
+			pre = "C07/exchange-with-unconsumed-request-body/" + k.point + "/"
+		case k.cn.Pipelined && method != "CONNECT" && k.point != "writing":
+			pre = "C07/exchange-with-next-request-pipelined/" + k.point + "/"
+		case strings.Contains(k.id, "-skip"):
+			pre = "C07/exchange-with-skipped-round-trip/" + k.point + "/"
+		}
+		switch {
 		case err != nil:
 			class := "response-missing-or-truncated"
 			if netkit.IsTimeout(err) {
 				class = "timeout-response"
 			}
 			v.Addf(pre+class, "connection %d, parked at %s when shutdown was requested: %v", idx, k.point, err)
+		case res.BodyErr != nil && strings.HasSuffix(k.id, "-conn") && res.Status == 200 && netkit.IsTimeout(res.BodyErr):
+			// (a 200 to CONNECT is followed by the tunnel: nothing ends it)
+			v.Addf(pre+"timeout-connection-not-closed-after-response", "connection %d (%s): the CONNECT in flight at shutdown was answered 200 (Connection: close=%v) and the connection then stays open as a tunnel: %v", idx, k.point, res.Close, res.BodyErr)
+			k.cl.Close()
 		case res.BodyErr != nil:
 			class := "response-missing-or-truncated"
 			if netkit.IsTimeout(res.BodyErr) {
@@ -601,28 +790,48 @@ func runOnce(c Case, T time.Duration) (v kit.Verdict) {
 				if res.Status != 502 {
 					v.Addf(pre+"wrong-response", "connection %d (%s): the origin is unreachable, status %d", idx, k.point, res.Status)
 				}
+			} else if strings.HasSuffix(k.id, "-conn") {
+				// (200 and then nothing, or a refusal: the statement does not say which)
+				if res.Status != 200 && res.Status/100 != 5 {
+					v.Addf(pre+"wrong-response", "connection %d (%s): status %d", idx, k.point, res.Status)
+				}
+			} else if strings.HasSuffix(k.id, "-cskip") {
+				if res.Status != 200 {
+					v.Addf(pre+"wrong-response", "connection %d (%s): status %d", idx, k.point, res.Status)
+				}
 			} else if res.Status != 200 || !bytes.Equal(res.Body, bodyFor(k.id)) {
 				v.Addf(pre+"wrong-response", "connection %d (%s): status %d, body %s", idx, k.point, res.Status, kit.Diff(bodyFor(k.id), res.Body))
 			}
 			if k.point != "writing" && !res.Close {
 				v.Addf(pre+"response-not-marked-close", "connection %d (%s): the response completed during shutdown carries no Connection: close", idx, k.point)
 			}
-			if stray, eof, err := k.cl.ExpectEOF(T); !eof || len(stray) > 0 {
+			if stray, eof, err := k.cl.ExpectEOF(patience(pre+"timeout-connection-not-closed-after-response", T)); !eof || len(stray) > 0 {
 				class := "connection-not-closed-after-response"
 				if netkit.IsTimeout(err) {
 					class = "timeout-connection-not-closed-after-response"
 				}
 				v.Addf(pre+class, "connection %d (%s): after the response: %d stray bytes, eof=%v (%v)", idx, k.point, len(stray), eof, err)
+				if k.cn.Withheld || strings.HasSuffix(k.id, "-conn") {
+					// the client gives up waiting and hangs up
+					k.cl.Close()
+				}
 			}
 		}
 		parkedLeft--
 	}
 
 	// ---- Close must now return
+	hangShape := "any"
+	for _, cn := range c.Conns {
+		if cn.Point == "mitm-idle-tunnel" || cn.Point == "mitm-half-hello" {
+			hangShape = "mitm-tunnel-awaiting-client-bytes"
+		}
+	}
+	hangSig := "C07/shutdown/" + hangShape + "/timeout-close-not-returning"
 	select {
 	case <-closed:
-	case <-time.After(T):
-		v.Addf("C07/shutdown/any/timeout-close-not-returning", "all parked exchanges were released but Close() did not return within %v", T)
+	case <-time.After(patience(hangSig, T)):
+		v.Addf(hangSig, "all parked exchanges were released but Close() did not return within %v", T)
 		return v
 	}
 	closeRet := g.tick()
@@ -637,6 +846,33 @@ func runOnce(c Case, T time.Duration) (v kit.Verdict) {
 		}
 		if !c.RawListener && !closedAtReturn[k.cl.Conn.LocalAddr().String()] {
 			v.Addf("C07/shutdown/"+k.point+"/close-returned-before-connection-closed", "Close() returned while connection %d (%s, served by a running handler before shutdown) had not been closed yet", i, k.point)
+		}
+	}
+
+	// Every connection the listener had handed out by the time Close() returned
+	// is closed by then, whether or not its handler had started.
+	if !c.RawListener {
+		mine := map[string]string{}
+		for _, k := range clients {
+			mine[k.cl.Conn.LocalAddr().String()] = k.point
+		}
+		for key := range acceptedAtReturn {
+			if closedAtReturn[key] {
+				continue
+			}
+			if pt, ok := mine[key]; ok {
+				if !(inflight[pt] || strings.HasSuffix(pt, "-after") || pt == "head-pipelined") {
+					v.Addf("C07/shutdown/"+pt+"/close-returned-before-connection-closed", "Close() returned while a connection at %s, handed out by Accept before, had not been closed yet", pt)
+				}
+				continue
+			}
+			// while Close() is held by an exchange in flight the new connection has
+			// all the time it needs; otherwise it races with the return of Close()
+			shape := "accepted-around-the-return-of-close"
+			if len(c.Release) > 0 && !c.SlowClose && !c.ShortTimeout {
+				shape = "accepted-while-close-waits-for-an-exchange"
+			}
+			v.Addf("C07/new-connection/"+shape+"/close-returned-before-connection-closed", "Close() returned while a connection that Accept had handed out after shutdown began (and before Close() returned) had not been closed yet")
 		}
 	}
 
@@ -730,14 +966,41 @@ func genCase(t *rapid.T) Case {
 		}
 		cn := Conn{Point: pt}
 		if rapid.IntRange(0, 7).Draw(t, "mitm_setup") == 0 {
-			cn.Point = rapid.SampledFrom([]string{"mitm-connect-reqmod", "mitm-awaiting-hello"}).Draw(t, "mitm_point")
+			cn.Point = rapid.SampledFrom([]string{"mitm-connect-reqmod", "mitm-connect-reqmod", "mitm-awaiting-hello", "mitm-idle-tunnel", "mitm-half-hello"}).Draw(t, "mitm_point")
 			pt = cn.Point
+			cn.Carry = pt == "mitm-connect-reqmod" && rapid.Bool().Draw(t, "carry")
 		}
 		if inflight[pt] && pt != "writing" && !strings.HasPrefix(pt, "mitm-") {
 			cn.Size = rapid.SampledFrom([]int{0, 0, 4000, 5000, 70000, 300000}).Draw(t, "size")
 			if (pt == "reqmod" || pt == "roundtrip") && rapid.IntRange(0, 3).Draw(t, "fail") == 0 {
 				cn.Fail, cn.Size = true, 0
 				cn.Connect = pt == "reqmod" && rapid.Bool().Draw(t, "connect_fail")
+			} else if pt == "resmod" && rapid.IntRange(0, 7).Draw(t, "fail_resmod") == 0 {
+				// the round trip (or the CONNECT) has failed; its 502 is inside the response modifier
+				cn.Fail, cn.Size = true, 0
+				cn.Connect = rapid.Bool().Draw(t, "connect_fail")
+			}
+			if (pt == "reqmod" || pt == "resmod") && !cn.Fail {
+				switch rapid.SampledFrom([]string{"", "", "", "", "", "", "skip", "skip-connect", "connect", "unread-body", "unread-body-huge", "withheld-body", "huge-pipelined", "huge"}).Draw(t, "variant") {
+				case "skip":
+					cn.Skip = true
+				case "skip-connect":
+					cn.Skip, cn.Connect, cn.Size = true, true, 0
+				case "connect":
+					if pt == "reqmod" {
+						cn.Connect, cn.Size = true, 0
+					}
+				case "unread-body":
+					cn.Skip, cn.ReqBody = true, rapid.SampledFrom([]int{3000, 98304}).Draw(t, "req_body")
+				case "unread-body-huge":
+					cn.Skip, cn.ReqBody, cn.Huge, cn.Size = true, 98304, true, 0
+				case "withheld-body":
+					cn.Skip, cn.ReqBody, cn.Withheld = true, 100000, true
+				case "huge-pipelined":
+					cn.Huge, cn.Pipelined, cn.Size = true, true, 0
+				case "huge":
+					cn.Huge, cn.Size = true, 0
+				}
 			}
 		}
 		c.Conns = append(c.Conns, cn)
@@ -745,6 +1008,9 @@ func genCase(t *rapid.T) Case {
 	c.SlowClose = rapid.Bool().Draw(t, "slow_close")
 	if rapid.IntRange(0, 2).Draw(t, "raw_listener") == 0 {
 		c.RawListener, c.SlowClose = true, false
+	}
+	if !c.RawListener && rapid.IntRange(0, 4).Draw(t, "slow_addr") == 0 {
+		c.SlowAddr = true
 	}
 	c.Shaped = rapid.IntRange(0, 3).Draw(t, "shaped") == 0
 	if !c.Shaped && rapid.IntRange(0, 5).Draw(t, "tls_listener") == 0 {
@@ -771,6 +1037,7 @@ func genCase(t *rapid.T) Case {
 			}
 		}
 	}
+	normalize(&c)
 	c.NewDuring = rapid.Bool().Draw(t, "new_during")
 	c.NewAfter = rapid.Bool().Draw(t, "new_after")
 	finish(&c, func(k int) []int {
@@ -780,6 +1047,32 @@ func genCase(t *rapid.T) Case {
 		return rapid.Permutation(seq(k)).Draw(t, "release")
 	})
 	return c
+}
+
+// normalize drops options that do not apply to the listener / MITM set-up of the case.
+func normalize(c *Case) {
+	mitmCase := c.TLSListener
+	for _, cn := range c.Conns {
+		if strings.HasPrefix(cn.Point, "mitm-") {
+			mitmCase = true
+		}
+	}
+	for i := range c.Conns {
+		cn := &c.Conns[i]
+		if mitmCase && cn.Connect {
+			// (with MITM configured a CONNECT is never a blind tunnel)
+			cn.Connect = false
+			if !cn.Fail {
+				cn.Skip = false
+			}
+		}
+		if c.Shaped || c.TLSListener {
+			// (the slow reader and the unread input are about the TCP connection itself)
+			if cn.Huge || cn.Pipelined {
+				cn.Huge, cn.Pipelined = false, false
+			}
+		}
+	}
 }
 
 func seq(n int) []int {
@@ -824,6 +1117,9 @@ func classes(c Case) []string {
 	if c.TLSListener {
 		set["tls-listener"] = true
 	}
+	if c.SlowAddr {
+		set["handler-starts-late-after-accept"] = true
+	}
 	if c.ShortTimeout {
 		set["exchange-parked-longer-than-the-proxy-timeout"] = true
 	}
@@ -839,6 +1135,24 @@ func classes(c Case) []string {
 			if c.Shaped && c.NewDuring {
 				set["shaped+in-flight-response>4KiB+listener-closed-early"] = true
 			}
+		}
+		if cn.Skip {
+			set["in-flight-round-trip-skipped"] = true
+		}
+		if cn.Connect && !cn.Fail {
+			set["in-flight-blind-connect"] = true
+		}
+		if cn.ReqBody > 0 {
+			set["in-flight-request-body-unconsumed"] = true
+		}
+		if cn.Withheld {
+			set["rest-of-request-body-never-sent"] = true
+		}
+		if cn.Huge {
+			set["huge-response-slow-client"] = true
+		}
+		if cn.Pipelined {
+			set["next-request-pipelined-behind-exchange-in-flight"] = true
 		}
 		if cn.Point == "writing" && c.RawListener {
 			set["bare-tcp-listener+response-being-written"] = true
@@ -892,6 +1206,43 @@ func TestTwoConnectionPlacements(t *testing.T) {
 					if !yield(c) {
 						return
 					}
+				}
+			}
+		}
+	})
+}
+
+var propEdges = &kit.Prop[Case]{ID: "C07", Name: "edge-shapes", Rule: "ENUMERATED: one connection (and the same next to an ordinary exchange parked in the request modifier) for every special shape of the exchange in flight - round trip skipped, CONNECT (skipped, failing, reachable target; request and response modifier), request body nobody consumes (sent in full / withheld by the client), 16 MiB response to a slow client with and without a pipelined next request - and of the idle connection - MITM tunnel just opened, half a ClientHello, handler starting late after Accept; " + rule,
+	Run: run, NonTrivial: nontrivial, Classes: classes, Journal: true}
+
+func TestEdgeShapes(t *testing.T) {
+	shapes := []Conn{
+		{Point: "reqmod", Skip: true}, {Point: "resmod", Skip: true, Size: 5000},
+		{Point: "reqmod", Skip: true, Connect: true}, {Point: "resmod", Skip: true, Connect: true},
+		{Point: "reqmod", Connect: true},
+		{Point: "reqmod", Fail: true, Connect: true}, {Point: "resmod", Fail: true, Connect: true}, {Point: "resmod", Fail: true},
+		{Point: "reqmod", Skip: true, ReqBody: 98304}, {Point: "resmod", Skip: true, ReqBody: 98304, Huge: true},
+		{Point: "reqmod", Skip: true, ReqBody: 98304, Huge: true},
+		{Point: "reqmod", Skip: true, ReqBody: 100000, Withheld: true},
+		{Point: "reqmod", Huge: true}, {Point: "reqmod", Huge: true, Pipelined: true}, {Point: "roundtrip", Huge: true, Pipelined: true},
+		{Point: "mitm-connect-reqmod"}, {Point: "mitm-connect-reqmod", Carry: true}, {Point: "mitm-awaiting-hello"},
+		{Point: "mitm-idle-tunnel"}, {Point: "mitm-half-hello"},
+		{Point: "idle-fresh"}, {Point: "head-fresh"},
+	}
+	propEdges.Enumerate(t, func(yield func(Case) bool) {
+		for _, sh := range shapes {
+			for _, with := range []bool{false, true} {
+				c := Case{Conns: []Conn{sh}, NewDuring: true, NewAfter: true}
+				if with {
+					c.Conns = append(c.Conns, Conn{Point: "reqmod"})
+				}
+				if sh.Point == "idle-fresh" || sh.Point == "head-fresh" {
+					c.SlowAddr = true
+				}
+				normalize(&c)
+				finish(&c, func(k int) []int { return seq(k) })
+				if !yield(c) {
+					return
 				}
 			}
 		}
@@ -981,4 +1332,4 @@ var propRace = &kit.Prop[RaceCase]{ID: "C07", Name: "accept-racing-close",
 
 func TestAcceptRacingClose(t *testing.T) { propRace.Check(t, kit.N(150, 400)) }
 
-func TestReplay(t *testing.T) { kit.Replay(t, propShutdown, propPairs, propRace) }
+func TestReplay(t *testing.T) { kit.Replay(t, propShutdown, propPairs, propEdges, propRace) }
